@@ -1051,7 +1051,10 @@ impl<'a> Run<'a> {
                         match outcome {
                             Ok(Outcome::Responded) => {
                                 let ptxid = p.compute_txid();
-                                if !node.has_tx(&ptxid) {
+                                // (a penalty the node accepted earlier in this block interval and has evicted since has
+                                // been given to the node: the tower may rely on that answer until the next block)
+                                let given_this_interval = self.model.recent_verdicts.get(&ptxid) == Some(&Verdict::Ok);
+                                if !node.has_tx(&ptxid) && !given_this_interval {
                                     vs.push(viol(
                                         "C02",
                                         "responded_without_node_having_penalty",
